@@ -175,19 +175,19 @@ func NewGenesis(c *Config, seed uint64, world int, r *core.Rand) GenesisSpec {
 	coin := new(big.Int).Set(big1e18)
 	minStakeCoins := int64(r.Range(1, 5))
 	gov := GovP{
-		Version:           1,
-		MaxValidatorCnt:   int64(r.Range(c.NVals, c.NVals+2)),
-		MinValidatorStake: new(big.Int).Mul(big.NewInt(minStakeCoins), coin),
-		MinDelegatorStake: new(big.Int),
-		RewardPerPower:    big.NewInt(int64([]int{0, 1, 1000, 4_756_468_797}[r.Intn(4)])),
-		LazyRewardBlocks:  int64(r.Range(1, 8)),
-		LazyApplyingBlocks: int64(r.Range(1, 4)),
-		GasPrice:          big.NewInt(int64([]int{1, 10, 250_000_000_000, 1_000_000_000}[r.Intn(4)])),
-		MinTrxGas:         uint64([]int{10, 1000, 4000}[r.Intn(3)]),
-		MaxTrxGas:         25_000_000,
-		MaxBlockGas:       1 << 62,
-		MinVotingPeriodBlocks: int64(r.Range(1, 3)),
-		MaxVotingPeriodBlocks: int64(r.Range(4, 10)),
+		Version:                 1,
+		MaxValidatorCnt:         int64(r.Range(c.NVals, c.NVals+2)),
+		MinValidatorStake:       new(big.Int).Mul(big.NewInt(minStakeCoins), coin),
+		MinDelegatorStake:       new(big.Int),
+		RewardPerPower:          big.NewInt(int64([]int{0, 1, 1000, 4_756_468_797}[r.Intn(4)])),
+		LazyRewardBlocks:        int64(r.Range(1, 8)),
+		LazyApplyingBlocks:      int64(r.Range(1, 4)),
+		GasPrice:                big.NewInt(int64([]int{1, 10, 250_000_000_000, 1_000_000_000}[r.Intn(4)])),
+		MinTrxGas:               uint64([]int{10, 1000, 4000}[r.Intn(3)]),
+		MaxTrxGas:               25_000_000,
+		MaxBlockGas:             1 << 62,
+		MinVotingPeriodBlocks:   int64(r.Range(1, 3)),
+		MaxVotingPeriodBlocks:   int64(r.Range(4, 10)),
 		MinSelfStakeRatio:       int64([]int{0, 10, 50}[r.Intn(3)]),
 		MaxUpdatableStakeRatio:  int64([]int{33, 100, 100}[r.Intn(3)]),
 		MaxIndividualStakeRatio: int64([]int{33, 100, 10000}[r.Intn(3)]),
@@ -228,13 +228,16 @@ func NewGenesis(c *Config, seed uint64, world int, r *core.Rand) GenesisSpec {
 }
 
 type Generator struct {
-	w *World
-	r *core.Rand
-	c *Config
-	outage   map[int]int // validator-set index -> remaining blocks of outage
-	freshCtr int
-	enumLeft int
+	w                     *World
+	r                     *core.Rand
+	c                     *Config
+	outage                map[int]int // validator-set index -> remaining blocks of outage
+	freshCtr              int
+	enumLeft              int
 	pendingGenesisUnstake int
+	absentNow map[Addr]bool
+	absentHist map[Addr]int64
+	curH int64
 }
 
 func NewGenerator(w *World) *Generator {
@@ -308,6 +311,34 @@ func (g *Generator) liveStakes() []*MStake {
 		out = append(out, g.w.M.Delegs[a].Stakes...)
 	}
 	return out
+}
+
+// genesisExitBusy: some genesis stake other than `self`'s is unbonding, about to be released in this
+// block, or its validator has missed signatures recently (it may be jailed). Used only to avoid the
+// listed finding "two genesis stakes unbonding at once share one record".
+func (g *Generator) genesisExitBusy(self Addr) bool {
+	if g.genesisUnbonding() > 0 || g.pendingGenesisUnstake > 0 {
+		return true
+	}
+	m := g.w.M
+	for _, a := range sortedAddrs(m.Delegs) {
+		if a == self || !g.holdsGenesisStake(a) {
+			continue
+		}
+		d := m.Delegs[a]
+		for _, x := range d.Missed {
+			if x >= m.H-m.Gov.SignedBlocksWindow-1 {
+				return true
+			}
+		}
+		if g.absentNow[a] {
+			return true
+		}
+		if hh, ok := g.absentHist[a]; ok && hh >= g.curH-m.Gov.SignedBlocksWindow-2 {
+			return true
+		}
+	}
+	return false
 }
 
 func (g *Generator) holdsGenesisStake(a Addr) bool {
@@ -409,7 +440,7 @@ func (g *Generator) intent(h int64) Intent {
 		}
 		// never remove the last validator: an empty set is outside the property
 		st := ls[g.r.Intn(len(ls))]
-		if g.c.AvoidKnown && st.ID == zeroHashHex && g.genesisUnbonding()+g.pendingGenesisUnstake >= 1 {
+		if g.c.AvoidKnown && st.ID == zeroHashHex && g.genesisExitBusy(Addr{1}) {
 			// listed finding: two genesis stakes unbonding at once share one record (see known_findings.json)
 			return Intent{Kind: "transfer", Actor: g.richActor(), To: g.target(), Amt: "n:2"}
 		}
@@ -612,6 +643,11 @@ func (g *Generator) NextBlock(h int64) BlockStep {
 	w := g.w
 	c := g.c
 	g.pendingGenesisUnstake = 0
+	g.absentNow = map[Addr]bool{}
+	if g.absentHist == nil {
+		g.absentHist = map[Addr]int64{}
+	}
+	g.curH = h
 	st := BlockStep{Proposer: -1, DtMs: int64(g.r.Range(200, 5000))}
 	if g.r.Chance(c.PTimeJump) {
 		st.DtMs = int64(g.r.Range(3600_000, 40*86400_000))
@@ -623,19 +659,27 @@ func (g *Generator) NextBlock(h int64) BlockStep {
 	n := vals.Size()
 	// absences / outages (the commit keeps > 2/3 power; enforced at execution)
 	for i := 0; i < n; i++ {
-		if c.AvoidKnown && g.genesisUnbonding() >= 1 && g.holdsGenesisStake(ToAddr(vals.Validators[i].Address)) {
+		if c.AvoidKnown && g.holdsGenesisStake(ToAddr(vals.Validators[i].Address)) && g.genesisExitBusy(ToAddr(vals.Validators[i].Address)) {
+			g.outage[i] = 0
 			continue
 		}
+		va := ToAddr(vals.Validators[i].Address)
 		if g.outage[i] > 0 {
 			g.outage[i]--
 			st.Absent = append(st.Absent, i)
+			g.absentNow[va] = true
+			g.absentHist[va] = h
 			continue
 		}
 		if g.r.Chance(c.POutage) {
 			g.outage[i] = g.r.Range(2, 8)
 			st.Absent = append(st.Absent, i)
+			g.absentNow[va] = true
+			g.absentHist[va] = h
 		} else if g.r.Chance(c.PAbsent / float64(n)) {
 			st.Absent = append(st.Absent, i)
+			g.absentNow[va] = true
+			g.absentHist[va] = h
 		}
 	}
 	if g.r.Chance(0.2) {
